@@ -160,6 +160,16 @@ claim("C43", "S2",
       "serialized calls is C01/C11-C13's subject.",
       "ast lock-coverage analysis over subscribe slots with interprocedural helper following")
 
+claim("C08", "S3",
+      "Structural decision by taint analysis over every truth-test context (~460) of operators, sources, subjects and "
+      "observers: no value that holds a stream element (handler parameters and whatever is read back from the "
+      "containers, cells and fields elements were stored in, with container depth) is the operand of a truth test or a "
+      "None comparison; presence is decided by flags, sentinels or lengths. Thorough tier adds an independent typed "
+      "detector (in-process mypy build: operands typed as an element TypeVar).",
+      "Flow-insensitive per closure tree; results of user callbacks are not sources in the quick tier; mypy is used only "
+      "as a type oracle (thorough tier) and is skipped, and said so, if unavailable.",
+      "ast taint analysis with container depth; mypy-typed operand scan (thorough)")
+
 na("C15", "arithmetic over run-time timestamps (queue ordering by timestamp + duetime, 'exactly d later'); no structural "
           "clause that is both necessary and robust beyond ownership/guarding/falsy rules already decided under "
           "C02/C03/C08/C09, whose scope includes these files")
